@@ -53,7 +53,7 @@ mod verif_c01_compose {
         std::mem::forget(bs);
     }
 
-    // @harness id=C01 tier=quick timeout=1800 mem=6 checks=rust
+    // @harness id=C01 tier=quick timeout=1800 mem=16 checks=rust
     // @bounds BarState::println("x") on a bar in progress / finished-visible / finished-and-cleared (symbolic), previous frame of 0..=1 rows: text line first, then the bar line (none when cleared); last_line_count = bar rows
     #[kani::proof]
     #[kani::unwind(6)]
@@ -62,7 +62,7 @@ mod verif_c01_compose {
         run(true);
     }
 
-    // @harness id=C01 tier=quick timeout=1800 mem=6 checks=rust
+    // @harness id=C01 tier=quick timeout=1800 mem=16 checks=rust
     // @bounds BarState::draw (forced), same states: the frame is the bar line (none when cleared)
     #[kani::proof]
     #[kani::unwind(6)]
